@@ -124,6 +124,8 @@ def describe_error(err, probe=None):
             "violator_value": int(err.violator_value),
             "exceeded_by": int(err.exceeded_by),
         }
+    elif type(err).__name__ == "ParameterEncryptionMismatchError":
+        d = {"kind": "encmismatch", "expected": bool(err.expected), "actual": bool(err.actual), "path": str(err.path)}
     elif isinstance(err, E.ConstraintViolatedError):
         d = {"kind": "constraint-other", "class": type(err).__name__}
     else:
